@@ -9,6 +9,7 @@ package main
 
 import (
 	"fmt"
+	"os"
 	"math/rand"
 	"sort"
 	"strings"
@@ -56,7 +57,7 @@ func newHProto(n *onet.TreeNodeInstance) (onet.ProtocolInstance, error) {
 		return nil, err
 	}
 	hrec.Lock()
-	if hrec.active && n.ServerIdentity().ID.Equal(hrec.xID) {
+	if hrec.active && n.Host().ServerIdentity.ID.Equal(hrec.xID) {
 		hrec.insts = append(hrec.insts, p)
 	}
 	hrec.Unlock()
@@ -115,7 +116,7 @@ type hworld struct {
 	failed  string
 }
 
-var markerID = network.MessageType(&Marker{})
+
 
 func mkWorld(in input) *hworld {
 	s := suiteOf(in.Suite)
@@ -178,7 +179,7 @@ func mkWorld(in input) *hworld {
 	for _, m := range w.descs {
 		w.d.tm(m)
 	}
-	w.p.RegisterProcessor(w.rec, onet.RequestTreeMsgID, onet.ResponseTreeMsgID, onet.SendTreeMsgID, onet.RequestRosterMsgID, onet.SendRosterMsgID, markerID)
+	w.p.RegisterProcessor(w.rec, onet.RequestTreeMsgID, onet.ResponseTreeMsgID, onet.SendTreeMsgID, onet.RequestRosterMsgID, onet.SendRosterMsgID, network.MessageType(&Marker{}))
 	onet.SetVerifHook(w.sched.Hook)
 	hrec.Lock()
 	hrec.active = true
@@ -196,15 +197,24 @@ func (w *hworld) close() {
 	insts := hrec.insts
 	hrec.insts = nil
 	hrec.Unlock()
+	t0 := time.Now()
 	for _, p := range insts {
 		if !p.done {
 			func() {
-				defer func() { recover() }()
+				defer func() {
+					if e := recover(); e != nil && os.Getenv("VERIF_DEBUG") != "" {
+						fmt.Fprintln(os.Stderr, "done panicked:", e)
+					}
+				}()
 				p.Done()
 			}()
 		}
 	}
+	t1 := time.Now()
 	w.lt.CloseAll()
+	if os.Getenv("VERIF_DEBUG") != "" {
+		fmt.Fprintln(os.Stderr, "close: insts", len(insts), "done", t1.Sub(t0), "closeall", time.Since(t1))
+	}
 }
 
 // ---- Coq literals of the operations ----------------------------------------------------------
@@ -256,6 +266,9 @@ func (w *hworld) nodeID(o hop) onet.TreeNodeID {
 // ---- executing one operation -------------------------------------------------------------------
 
 func (w *hworld) process(env *network.Envelope) (outcome string) {
+	// no handler is running now: a pendingTreeLock that cannot be taken has been
+	// left held by a handler that returned (or panicked) earlier
+	leaked := !w.ov.VerifLocksFree()["pendingTreeLock"]
 	done := make(chan string, 1)
 	go func() {
 		defer func() {
@@ -266,17 +279,12 @@ func (w *hworld) process(env *network.Envelope) (outcome string) {
 		w.ov.Process(env)
 		done <- "Fine"
 	}()
-	select {
-	case r := <-done:
-		return r
-	case <-time.After(1500 * time.Millisecond):
-	}
-	// not back yet: blocked only if the lock it needs is held by nobody who will release it
-	if !w.ov.VerifLocksFree()["pendingTreeLock"] {
+	if leaked {
+		// the handler either does not need the lock and returns at once, or waits for ever
 		select {
 		case r := <-done:
 			return r
-		case <-time.After(500 * time.Millisecond):
+		case <-time.After(400 * time.Millisecond):
 			return "Blocked"
 		}
 	}
@@ -284,7 +292,7 @@ func (w *hworld) process(env *network.Envelope) (outcome string) {
 	case r := <-done:
 		return r
 	case <-time.After(20 * time.Second):
-		w.failed = "handler neither returned nor blocked on pendingTreeLock"
+		w.failed = "handler did not return although pendingTreeLock was free"
 		return "Blocked"
 	}
 }
@@ -513,7 +521,12 @@ func (w *hworld) snapshot(outcome string) string {
 }
 
 func runHist(in input) lib.Case {
+	t00 := time.Now()
 	w := mkWorld(in)
+	if os.Getenv("VERIF_DEBUG") != "" {
+		fmt.Fprintln(os.Stderr, "mkWorld", time.Since(t00))
+		defer func() { fmt.Fprintln(os.Stderr, "case total", time.Since(t00)) }()
+	}
 	defer w.close()
 	var ops, snaps, trace []string
 	peer := false
@@ -553,6 +566,9 @@ func runHist(in input) lib.Case {
 		class += "@" + in.Suite
 	}
 	if w.failed != "" {
+		if os.Getenv("VERIF_DEBUG") != "" {
+			fmt.Fprintln(os.Stderr, "hist discarded:", in.Name, w.failed, trace)
+		}
 		return lib.Case{Discard: true, Class: class, Obs: w.failed}
 	}
 	coq := fmt.Sprintf("CHist %s %s", lib.List(ops), lib.List(snaps))
